@@ -275,10 +275,11 @@ fn judge(s: &Spec, c1: &Case, o1: &Obs, o2: &Obs, o1b: &Obs, bracket: (u64, u64)
                 }
             }
         }
-        // if a refreshed cookie is issued it must verify and carry the cookie's identity
+        // if a refreshed cookie is issued it must verify and carry the cookie's identity (its time stamp may be the
+        // original cookie's - which does not prolong anything - or the time of the refresh)
         let (auth2, _, _) = store_cookies(o2);
         for a in &auth2 {
-            check_auth_cookie(&mut |k, t| bad(&format!("refreshed-{k}"), t), a, sec.as_ref().unwrap(), second_case(s, None, None).cfg.client_addr, &name, uuid, &props(s.props), &target_id(s), bracket2);
+            check_auth_cookie(&mut |k, t| bad(&format!("refreshed-{k}"), t), a, sec.as_ref().unwrap(), second_case(s, None, None).cfg.client_addr, &name, uuid, &props(s.props), &target_id(s), (bracket.0, bracket2.1));
         }
     } else {
         if flag != Some(true) || auth_calls == 0 || success != Some(("Second_Verdict".to_string(), 0x2222_0000_0000_4000_8000_0000_0000_2222)) {
